@@ -56,6 +56,12 @@ func main() {
 	}
 	out := bufio.NewWriterSize(os.Stdout, 1<<20)
 	defer out.Flush()
+	defer func() {
+		// scratch directory of the quote area
+		if quoteDir != "" {
+			os.RemoveAll(quoteDir)
+		}
+	}()
 	switch os.Args[1] {
 	case "unicode":
 		out.Flush()
